@@ -22,11 +22,14 @@ static RUNTIME_FEATURE: AtomicU8 = AtomicU8::new(0);
 #[inline]
 fn get_runtime_feature() -> u8 {
     let mut feature = RUNTIME_FEATURE.load(Ordering::Relaxed);
+    #[cfg(httparse_verif)] crate::verif::race(0, feature);
     if feature == 0 {
         feature = detect_runtime_feature();
         RUNTIME_FEATURE.store(feature, Ordering::Relaxed);
+        #[cfg(httparse_verif)] crate::verif::race(1, feature);
     }
 
+    #[cfg(httparse_verif)] crate::verif::race(2, feature);
     feature
 }
 
@@ -54,4 +57,18 @@ pub fn match_header_value_vectored(bytes: &mut Bytes) {
             _ /* NOP */ => super::swar::match_header_value_vectored(bytes),
         }
     }
+}
+
+#[cfg(httparse_verif)]
+#[allow(missing_docs)]
+pub const VERIF_PROVIDER: &str = "runtime";
+
+/// Read (and optionally overwrite) the cached backend id.
+#[cfg(httparse_verif)]
+#[allow(missing_docs)]
+pub fn verif_runtime_feature(set: Option<u8>) -> u8 {
+    if let Some(v) = set {
+        RUNTIME_FEATURE.store(v, Ordering::Relaxed);
+    }
+    RUNTIME_FEATURE.load(Ordering::Relaxed)
 }
